@@ -72,6 +72,70 @@ func (vc *FnVC) libModel(in *ssa.Call, callee *ssa.Function) bool {
 			vc.modelUsed(name)
 			return true
 		}
+	case name == "sort.Search":
+		// sort.Search(n, f): binary search; whatever f does, the result r satisfies 0 <= r <= n
+		// (n < 0 yields 0). With a straight-line predicate closure the two facts binary search
+		// establishes are added as well: f(r) when r < n, and !f(r-1) when r > 0.
+		n := a(0)
+		r := vc.freshConst("srch", "Int")
+		vc.fact(fmt.Sprintf("(and (<= 0 %s) (<= %s (ite (>= %s 0) %s 0)))", r, r, n, n))
+		vc.setRes(in, intT(r))
+		if mc, ok := args[1].(*ssa.MakeClosure); ok {
+			if fn, ok := mc.Fn.(*ssa.Function); ok && vc.prog.closureIsEffectFree(fn) {
+				saved := vc.curReach
+				vc.curReach = fmt.Sprintf("(and %s (< %s %s))", saved, r, n)
+				if res, ok := vc.inlineSingleBlock(fn, []Term{intT(r)}, mc.Bindings); ok && len(res) == 1 {
+					vc.fact(fmt.Sprintf("(=> %s %s)", vc.curReach, res[0].S))
+				}
+				r1 := vc.defineNamed("srchprev", "Int", fmt.Sprintf("(- %s 1)", r))
+				vc.curReach = fmt.Sprintf("(and %s (> %s 0))", saved, r)
+				if res, ok := vc.inlineSingleBlock(fn, []Term{intT(r1)}, mc.Bindings); ok && len(res) == 1 {
+					vc.fact(fmt.Sprintf("(=> %s (not %s))", vc.curReach, res[0].S))
+				}
+				vc.curReach = saved
+			}
+		}
+		vc.assume("sort.Search returns an index in [0,n] with f(index) true (if < n) and f(index-1) false (if > 0); the predicate closure is evaluated on the current state")
+		vc.modelUsed(name)
+		return true
+	case name == "errors.Is":
+		// the same uninterpreted relation the spec builtin iserr(e, target) uses
+		vc.setRes(in, boolT(vc.defineNamed("eis", "Bool", vc.errorsIs(a(0), a(1)))))
+		vc.modelUsed(name)
+		return true
+	case strings.HasPrefix(name, "slices.Grow["):
+		// slices.Grow(s, n): same slice when cap-len >= n, otherwise a new backing array with
+		// the same elements; length unchanged, capacity at least len+n (panics for n < 0).
+		s := vc.val(args[0])
+		st, ok := args[0].Type().Underlying().(*types.Slice)
+		if !ok {
+			return false
+		}
+		n := a(1)
+		vc.obAssert("bounds", "panic@"+vc.srcText(in), "slices.Grow count is non-negative", fmt.Sprintf("(>= %s 0)", n), in.Pos())
+		fits := fmt.Sprintf("(>= (- (s.cap %s) (s.len %s)) %s)", s.S, s.S, n)
+		farr := vc.newAllocRef("grow$" + mangle(in.Name()))
+		fcap := vc.freshConst("growcap", "Int")
+		vc.fact(fmt.Sprintf("(and (>= %s (+ (s.len %s) %s)) (<= %s 281474976710656))", fcap, s.S, n, fcap))
+		res := fmt.Sprintf("(ite %s %s (mkSlice %s 0 (s.len %s) %s))", fits, s.S, farr, s.S, fcap)
+		r := vc.defineNamed("grown", "Slice", res)
+		el := st.Elem()
+		if isObjectType(el) {
+			rg := objRegion{fmt.Sprintf("(not %s)", fits), farr, "0", fmt.Sprintf("(s.len %s)", s.S), fmt.Sprintf("(s.arr %s)", s.S), fmt.Sprintf("(s.off %s)", s.S)}
+			if !vc.copyObjRegions(el, []objRegion{rg}) {
+				return false
+			}
+		} else {
+			c, srt := vc.elemComp(el)
+			h := vc.heapGet(c, srt)
+			f := vc.freshConst("grw", "(Array Int "+vc.sortOf(el)+")")
+			vc.fact(fmt.Sprintf("(forall ((i Int)) (! (=> (and (<= 0 i) (< i (s.len %s))) (= (select %s i) (select (select %s (s.arr %s)) (+ (s.off %s) i)))) :pattern ((select %s i))))", s.S, f, h, s.S, s.S, f))
+			vc.heapSet(c, srt, fmt.Sprintf("(store %s %s %s)", h, farr, f))
+		}
+		vc.setRes(in, Term{S: r, Sort: "Slice", T: in.Type()})
+		vc.assume("slices.Grow returns its argument when the spare capacity suffices and otherwise a new backing array holding the same elements")
+		vc.modelUsed(name)
+		return true
 	case strings.HasPrefix(name, "(*math/big.Int)."):
 		m := strings.TrimPrefix(name, "(*math/big.Int).")
 		return vc.bigMethod(in, m, args)
